@@ -57,6 +57,20 @@ CHECKS = {
                 text="Complete enumeration of every (Z, shell) and (Z, Auger macro) cell incl. margins in both configurations; rates are re-derived from an "
                      "independent parse of auger_rates.dat with Coster-Kronig membership decided from the macro names, yields from the public yields/CK values.",
                 note="Trusts the Python reader of auger_rates.dat and the '%.10E' model; fluorescence yields / CK values come through the public API (C01 binds them to the files)."),
+    "C08": dict(level="exploration", engine="ENUM", ref="4/C08",
+                technique="exhaustive enumeration of Z x shells x lines x 5 variants x edge-bracketing energies against a reference cascade recursion over public primitives",
+                text="With the Kissel table regenerated from data/kissel, every element, K..M5 shell, line macro, variant and unit is evaluated at energies "
+                     "bracketing every edge and spanning the tables and compared with a reference recursion (own photo-ionisation + Coster-Kronig feeding + "
+                     "radiative / Auger vacancy transfer, Auger membership and double-hole multiplicity parsed from the macro names); the build-time "
+                     "transfer constants are thereby re-derived cell by cell. With the table emptied (as shipped) every call must fail.",
+                note="Differential oracle over public primitives (C01/C02/C11 decide those); configuration K depends on the Python port of kissel.pro, "
+                     "bound by running the repository's own Kissel tests on snapshot sources + regenerated table inside the check."),
+    "C09": dict(level="exploration", engine="ENUM", ref="4/C09",
+                technique="exhaustive enumeration of Z x shells x lines x energies on both sides of every K/L edge against the jump-share formula, three-valued oracle",
+                text="Every element, shell and line macro at energies straddling every K/L edge (1 +- 1e-9..1e-3), between edges and at the photo table ends; the "
+                     "result must equal photo cross section x jump share x yield x rate computed from the public ingredients; an error is accepted only where "
+                     "the statement allows one, and a fully defined non-zero product must be returned.",
+                note="Differential oracle; E exactly on an edge and products that are exactly 0 (jump ratio 1) are don't-care points."),
 }
 NOT_YET = {}
 ALL = ["C%02d" % i for i in range(1, 21)]
